@@ -25,6 +25,8 @@ FIRST = {
     "C06-3": "missed", "C07-3": "missed", "C08-2": "caught (replay)",
     "C09-3": "caught (replay)", "C10-3": "caught (replay)", "C11-3": "caught (replay)", "C12-3": "broken correspondence, no-failing-input-found",
     "C13-3": "caught (replay)", "C14-3": "missed",
+    "C15-3": "missed", "C16-3": "broken correspondence, no-failing-input-found", "C17-3": "caught (replay)", "C18-3": "missed",
+    "C19-3": "missed", "C20-3": "caught (replay)",
 }
 
 
